@@ -693,7 +693,7 @@ func (ck *Check) emptinessShape(rule string) {
 						// … or the entry is fetched through a get-or-create helper h(map, key)
 						if rc, ok := c.Common().Args[0].(*ssa.Call); ok && !keyOK {
 							if h := rc.Common().StaticCallee(); h != nil && ck.P.inRepo(h) {
-								if mi, ki, ok := getOrCreateHelper(h); ok && ki < len(rc.Common().Args) && mi < len(rc.Common().Args) {
+								if mi, ki, ok := getOrCreateHelper(h); ok && ki < len(rc.Common().Args) && (mi < len(rc.Common().Args) || mi == 1000) {
 									keyOK = ctx.Term(rc.Common().Args[ki]).Key() == ck.podField(argT, "Spec", "NodeName").Key()
 								}
 							}
@@ -1519,6 +1519,13 @@ func getOrCreateHelper(h *ssa.Function) (int, int, bool) {
 			if ssa.Value(p) == v {
 				return i
 			}
+		}
+		// a closure over the map: the captured variable (or a load of it) stands for "the" map
+		if ld, ok := v.(*ssa.UnOp); ok {
+			v = ld.X
+		}
+		if _, ok := v.(*ssa.FreeVar); ok {
+			return 1000
 		}
 		return -1
 	}
